@@ -64,6 +64,7 @@ SInit(c) == [pc |-> IF c.maxAtt = 0 THEN "zeroexh" ELSE "top",
              cnt |-> [k \in Classes |-> 0], unk |-> 0,
              lk |-> "-", lcause |-> "-", lid |-> None, lra |-> None,
              ck |-> "-", ccause |-> "-", cra |-> None,    \* failure being processed
+             cout |-> "-",                                \* outcome of the last invocation
              stop |-> "-", budget |-> c.budget, sl |-> None,
              dkind |-> "-", own |-> FALSE, abn |-> 0]
 
@@ -156,7 +157,7 @@ Invoke(c, s) ==
     IF (s.pc = "top" /\ ~c.abort) \/ s.pc = "invoke" THEN
         { <<EvInvoke(s.att, s.now, o.out, o.k, o.ra, d),
             LET s1 == [s EXCEPT !.now = s.now + d, !.ninv = s.att,
-                                !.ck = o.k, !.cra = o.ra,
+                                !.ck = o.k, !.cra = o.ra, !.cout = o.out,
                                 !.ccause = IF o.out = "exc" THEN "exception"
                                            ELSE IF o.out = "res" THEN "result" ELSE "-"]
             IN  CASE o.out = "ok"    -> [s1 EXCEPT !.pc = IF c.rc THEN "rcl_ok" ELSE "succ"]
